@@ -1,7 +1,7 @@
 ------------------------------ MODULE MC_Diff ------------------------------
 (* C09 checked on the model itself, before any code is consulted.               *)
 (*                                                                            *)
-(* One state per pair of L*a*b* colours.  The pairs are                          *)
+(* One evaluated state per pair of L*a*b* colours.  The pairs are                         *)
 (*  - the 34 pairs of the supplementary test data of Sharma, Wu, Dalal (2005),     *)
 (*    table 1, with the published dE00 (4 decimals): the reference De00 of          *)
 (*    Diff.tla must reproduce every one of them to 4 decimals;                      *)
@@ -22,6 +22,7 @@ CONSTANTS Scales,      \* chroma multipliers of the grid's (a, b) points, e.g. {
 
 VARIABLES k,           \* constants record (built once)
           i,           \* index of the pair
+          done,        \* the pair has been evaluated
           res          \* everything computed for the pair
 
 (* Sharma, Wu, Dalal (2005), table 1: L1 a1 b1 L2 a2 b2 dE00, all times 10^4 *)
@@ -80,64 +81,80 @@ Pair(n) ==
            j1 == (g \div NCol) + 1  j2 == (g % NCol) + 1
            l2 == IF j1 = j2 \/ (j1 + j2) % 2 = 0 THEN 40 ELSE 70
        IN [c1 |-> <<40, ColAB(j1)[1], ColAB(j1)[2]>>, c2 |-> <<l2, ColAB(j2)[1], ColAB(j2)[2]>>, den |-> 1, want |-> -1]
-Col(c, den) == <<FxRat(c[1], den), FxRat(c[2], den), FxRat(c[3], den)>>
+Col(c, den) == <<QRat(c[1], den), QRat(c[2], den), QRat(c[3], den)>>
 
 B01(b) == IF b THEN 1 ELSE 0
-Micro(x) == LET m == FxMulInt(FxMulInt(x, 1000), 1000) IN ToNat(ShiftLimbs(m[2], -FL))      \* floor(x 10^6), x < 2000
+Micro(x) == LET m == QMulInt(QMulInt(x, 1000), 1000) IN m[9] + 8192 * m[10] + 8192 * 8192 * m[11]      \* floor(x 10^6), 0 <= x < 2000
 Eval(kk, n) ==
   LET p == Pair(n)
       c1 == Col(p.c1, p.den)  c2 == Col(p.c2, p.den)
       P == De00Primes(kk, c1, c2)
       f == De00Tail(kk, c1, c2, P, FALSE, 0)
-      near == ~f.zero /\ FxLe(FxAbs(FxSub(f.hdabs, Fx180)), FxEps(60))       \* a hue difference of exactly 180 degrees
+      near == ~f.zero /\ QLe(QAbs(QSub(f.hdabs, Q180)), QEps(60))       \* a hue difference of exactly 180 degrees
   IN [ de |-> f.de, back |-> De00(kk, c2, c1),
        cls |-> <<B01(P.z1), B01(P.z2), B01(f.wide), B01(f.le), B01(f.lt360)>>,
        near180 |-> near,
        flipped |-> IF near THEN De00Tail(kk, c1, c2, P, TRUE, 0).de ELSE f.de ]
 
+(* one initial state per pair; the evaluation is a step, so that TLC's workers share the pairs *)
+Dummy == [de |-> QZero, back |-> QZero, cls |-> <<0, 0, 0, 0, 0>>, near180 |-> FALSE, flipped |-> QZero]
 Init == /\ k = DiffConsts
         /\ i \in 1..NPairs
-        /\ res = Eval(k, i)
-Next == UNCHANGED <<k, i, res>>
-Spec == Init /\ [][Next]_<<k, i, res>>
+        /\ done = FALSE /\ res = Dummy
+Evaluate == /\ ~done
+            /\ res' = Eval(k, i) /\ done' = TRUE
+            /\ UNCHANGED <<k, i>>
+Next == Evaluate
+Spec == Init /\ [][Next]_<<k, i, done, res>>
 
 -----------------------------------------------------------------------------
 Fail(what) == PrintT(<<"model fails", what, i>>) /\ FALSE
 
-NonNegative00 == (res.de[1] >= 0 /\ res.back[1] >= 0) \/ Fail("non-negative")
+NonNegative00 == ~done \/ (~QIsNeg(res.de) /\ ~QIsNeg(res.back)) \/ Fail("non-negative")
 (* symmetric to 2^-80: the two evaluations differ only in the signs of dL', dC', dh' *)
-Symmetric00 == FxNearAbs(res.de, res.back, FxEps(80)) \/ Fail("symmetric")
-Identical00 == (Pair(i).c1 = Pair(i).c2 => res.de = FxZero /\ res.back = FxZero) \/ Fail("zero on identical colours")
+Symmetric00 == ~done \/ QAgreeBits(res.de, res.back, QOne) >= 80 \/ Fail("symmetric")
+Identical00 == ~done \/ (Pair(i).c1 = Pair(i).c2 => res.de = QZero /\ res.back = QZero) \/ Fail("zero on identical colours")
 (* published value reproduced to 4 decimals; a pair whose hue difference is exactly 180 degrees (pairs 10 and 14)
    may be on either side of the jump *)
-Published(v, want) == FxNearAbs(v, FxRat(want, 10000), FxRat(1, 20000))
-SharmaOK == (Pair(i).want >= 0 => Published(res.de, Pair(i).want) \/ (res.near180 /\ Published(res.flipped, Pair(i).want)))
+Published(v, want) == QLe(QAbs(QSub(v, QRat(want, 10000))), QRat(1, 20000))
+SharmaOK == ~done \/ (Pair(i).want >= 0 => Published(res.de, Pair(i).want) \/ (res.near180 /\ Published(res.flipped, Pair(i).want)))
             \/ Fail("Sharma table 1")
 
-(* the elementary functions against each other, once *)
+(* the arithmetic and the elementary functions against each other and against module Fx, once *)
+QNear(x, y, bits) == QAgreeBits(x, y, QMax(QOne, QMax(QAbs(x), QAbs(y)))) >= bits
+QD(sgn, ip, groups) == QOfFx(FxDec(sgn, ip, groups))
 ElemOK ==
-  i # 1 \/
-  (/\ FxNear(FxSqr(FxSqrt(FxRat(12345, 7))), FxRat(12345, 7), 85, 200)
-   /\ FxNear(FxSqr(FxSqrt(FxRat(1, 9973))), FxRat(1, 9973), 95, 200)
-   /\ FxNear(FxSqrt(FxInt(2)), FxDec(1, 1, <<4142, 1356, 2373, 950, 4880, 1688, 7242>>), 90, 200)
-   /\ FxNear(FxExpNeg(FxOne), FxDec(1, 0, <<3678, 7944, 1171, 4423, 2159, 5523, 7701>>), 90, 200)        \* 1/e
-   /\ FxNear(FxMul(FxExpNeg(FxRat(7, 3)), FxExpNeg(FxRat(11, 5))), FxExpNeg(FxRat(68, 15)), 90, 200)
-   /\ FxExpNeg(FxInt(121)) = FxZero
+  ~done \/ i # 1 \/
+  (/\ QMul(QInt(-3), QInt(-3)) = QInt(9) /\ QMul(QInt(-3), QRat(5, 2)) = QNeg(QRat(15, 2)) /\ QSub(QInt(2), QInt(5)) = QInt(-3)
+   /\ FxOfQ(QOfFx(FxRat(-7, 3))) = FxRat(-7, 3)
+   /\ QNear(QMul(QOfFx(FxRat(-7, 3)), QOfFx(FxRat(22, 7))), QOfFx(FxMul(FxRat(-7, 3), FxRat(22, 7))), 100)
+   /\ QNear(QDiv(QInt(-22), QInt(7)), QRat(-22, 7), 98) /\ QNear(QDiv(QInt(1000000), QRat(1, 100)), QInt(100000000), 98)
+   /\ QNear(QSqr(QSqrt(QRat(12345, 7))), QRat(12345, 7), 98)
+   /\ QNear(QSqr(QSqrt(QRat(1, 9973))), QRat(1, 9973), 98)
+   /\ QNear(QSqrt(QInt(2)), QD(1, 1, <<4142, 1356, 2373, 950, 4880, 1688, 7242, 969, 8078>>), 98)
+   /\ QNear(QExpNeg(QOne), QD(1, 0, <<3678, 7944, 1171, 4423, 2159, 5523, 7701, 6146, 867>>), 95)        \* 1/e
+   /\ QNear(QMul(QExpNeg(QRat(7, 3)), QExpNeg(QRat(11, 5))), QExpNeg(QRat(68, 15)), 95)
+   /\ QExpNeg(QInt(121)) = QZero
    /\ \A h \in {1, 17, 44, 45, 46, 89, 90, 91, 135, 179, 180, 181, 200, 269, 271, 300, 359} :
-        FxNear(Atan2Deg(k.e, FxMulInt(SinDegK(k.e, FxInt(h)), 37), FxMulInt(CosDegK(k.e, FxInt(h)), 37)), FxInt(h), 85, 200)
-   /\ FxNear(SinDegK(k.e, FxInt(30)), FxRat(1, 2), 90, 200) /\ FxNear(CosDegK(k.e, FxInt(-780)), FxRat(1, 2), 90, 200)
-   /\ FxNear(SinDegK(k.e, FxInt(1086)), SinCosDeg(FxInt(1086))[1], 90, 200)
-   /\ k.p25_7 = FxMulInt(FxInt(78125), 78125)                                              \* 25^7 = 5^14 = 78125^2
+        QNear(QAtan2Deg(k.e, QMulInt(QSinDeg(k.e, QInt(h)), 37), QMulInt(QCosDeg(k.e, QInt(h)), 37)), QInt(h), 95)
+   /\ QNear(QSinDeg(k.e, QInt(30)), QRat(1, 2), 95) /\ QNear(QCosDeg(k.e, QInt(-780)), QRat(1, 2), 95)
+   /\ QNear(QSinDeg(k.e, QInt(1086)), QOfFx(SinCosDeg(FxInt(1086))[1]), 93)                              \* Trig.tla
+   /\ QNear(QCosDeg(k.e, QRat(12345, 7)), QOfFx(SinCosDeg(FxRat(12345, 7))[2]), 93)
+   /\ FxOfQ(QPow(QInt(25), 7)) = FxMulInt(FxInt(78125), 78125)                                           \* 25^7 = 5^14 = 78125^2
    (* the closed-form relations accept exact points and reject perturbed ones *)
-   /\ PowRelBits(FxOne, DyFromInt(5), DyFromInt(25), 1, 2) >= 90                                        \* 5^2 = 25
-   /\ PowRelBits(FxOne, FxDy(FxAdd(FxInt(5), FxEps(30))), DyFromInt(25), 1, 2) < 36
+   /\ PowRelBits(QfOne, DyFromInt(5), DyFromInt(25), 1, 2) >= 90                                        \* 5^2 = 25
+   /\ PowRelBits(QfOne, FxDy(FxAdd(FxInt(5), FxEps(30))), DyFromInt(25), 1, 2) < 36
    /\ PowRelBits(k.c143_10, FxDy(FxRat(143, 100)), DyFromInt(1), 7, 10) >= 90                           \* 1.43 * 1^0.7
    /\ PowRelBits(k.c126_40, FxDy(FxRat(126, 100)), DyFromInt(1), 11, 40) >= 90
-   /\ PowRelBits(k.c141_200, FxDy(FxMulInt(FxRat(141, 100), 2)), DyFromInt(1), 63, 200) < 10     \* off by a factor 2
+   /\ PowRelBits(k.c141_200, FxDy(FxMulInt(FxRat(141, 100), 2)), DyFromInt(1), 63, 200) < 10             \* off by a factor 2
+   /\ RelBits(DyFromInt(7), DyFromInt(7)) = 200 /\ RelBits(DyFromInt(7), DyFromInt(8)) < 4
    /\ HyabBits(DyFromInt(12), <<DyFromInt(10), DyFromInt(1), DyFromInt(2)>>, <<DyFromInt(3), DyFromInt(4), DyFromInt(6)>>) >= 90   \* 7 + 5
    /\ HyabBits(DyFromInt(12), <<DyFromInt(1), DyFromInt(10), DyFromInt(2)>>, <<DyFromInt(4), DyFromInt(3), DyFromInt(6)>>) < 10   \* L and a swapped
-   /\ ContrastBits(FxInt(21), FxOne, FxZero) >= 90 /\ ContrastBits(FxInt(20), FxOne, FxZero) < 10
-   /\ PredicatesAgree(DyFromInt(5), <<1, 1, 0, 1, 1>>) /\ ~PredicatesAgree(DyFromInt(4), <<1, 1, 0, 1, 1>>))
+   /\ ConvBits(k, <<QInt(50), QInt(5), QD(1, 53, <<1301, 235, 4155, 9800>>)>>, <<QInt(50), QInt(3), QInt(4)>>) >= 44          \* atan2(4, 3)
+   /\ ConvBits(k, <<QInt(50), QInt(5), QInt(54)>>, <<QInt(50), QInt(3), QInt(4)>>) < 12
+   /\ ContrastBits(QInt(21), QOne, QZero) >= 90 /\ ContrastBits(QInt(20), QOne, QZero) < 10
+   /\ PredicatesAgree(DyFromInt(5), <<1, 1, 0, 1, 1>>) /\ ~PredicatesAgree(DyFromInt(4), <<1, 1, 0, 1, 1>>)
+   /\ RatioInRange(DyFromInt(21), 24, 4) /\ ~RatioInRange(DyFromInt(22), 24, 4) /\ ~RatioInRange(DyZero, 24, 4))
   \/ Fail("elementary functions")
 
 (* feasible classes of the hue logic, from an integer abstraction: a hue in 0, 10, .., 350, forced to 0 when achromatic *)
@@ -151,7 +168,7 @@ FeasibleSeq == LET RECURSIVE ToSeq(_)
                IN ToSeq(Feasible)
 ASSUME PrintT(<<"FEASIBLE", ToJson(FeasibleSeq)>>)
 
-EmitDone == Emit => PrintT(<<"REPLAY", ToJson([n |-> i, c1 |-> Pair(i).c1, c2 |-> Pair(i).c2, den |-> Pair(i).den,
+EmitDone == (Emit /\ done) => PrintT(<<"REPLAY", ToJson([n |-> i, c1 |-> Pair(i).c1, c2 |-> Pair(i).c2, den |-> Pair(i).den,
                                               cls |-> res.cls, near180 |-> B01(res.near180), ref_micro |-> Micro(res.de),
                                               want |-> Pair(i).want])>>)
 =============================================================================
